@@ -288,17 +288,24 @@ Definition act_eqb (a b : act) : bool :=
   | _, _ => false
   end.
 
+(* the comparisons below use `if` rather than `&&` so that vm_compute stops at the first difference *)
 Fixpoint list_eqb {A} (eqb : A -> A -> bool) (a b : list A) : bool :=
   match a, b with
   | [], [] => true
-  | x :: a', y :: b' => eqb x y && list_eqb eqb a' b'
+  | x :: a', y :: b' => if eqb x y then list_eqb eqb a' b' else false
   | _, _ => false
   end.
 
 Definition thread_eqb (a b : thread) : bool :=
-  optnat_eqb (t_gate a) (t_gate b) && list_eqb act_eqb (t_prog a) (t_prog b) && pc_eqb (t_pc a) (t_pc b).
+  if pc_eqb (t_pc a) (t_pc b)
+  then if Nat.eqb (length (t_prog a)) (length (t_prog b))
+       then if optnat_eqb (t_gate a) (t_gate b) then list_eqb act_eqb (t_prog a) (t_prog b) else false
+       else false
+  else false.
 Definition cell_eqb (a b : cell) : bool :=
-  Z.eqb (c_val a) (c_val b) && Bool.eqb (c_closed a) (c_closed b) && Bool.eqb (c_set a) (c_set b).
+  if Z.eqb (c_val a) (c_val b)
+  then if Bool.eqb (c_closed a) (c_closed b) then Bool.eqb (c_set a) (c_set b) else false
+  else false.
 (* State identification used by the matcher.  A cell is DEAD when its channel is closed, it is
    not the current cell, and no goroutine holds a reference to it (as the cell a Set is about to
    close, or as the cell a Value obtained).  A dead cell can never be observed again (the pointer
@@ -323,8 +330,13 @@ Fixpoint norm_from (s : st) (k : nat) (cs : list cell) : list cell :=
 Definition norm_cells (s : st) : list cell := norm_from s 0 (cells s).
 
 Definition st_eqb (a b : st) : bool :=
-  list_eqb thread_eqb (ths a) (ths b) && list_eqb cell_eqb (norm_cells a) (norm_cells b)
-  && optnat_eqb (ptr a) (ptr b) && list_eqb Bool.eqb (gates a) (gates b).
+  if optnat_eqb (ptr a) (ptr b)
+  then if list_eqb thread_eqb (ths a) (ths b)
+       then if list_eqb cell_eqb (norm_cells a) (norm_cells b)
+            then list_eqb Bool.eqb (gates a) (gates b)
+            else false
+       else false
+  else false.
 
 (* the initial state of a scenario: thread t has the configured start gate and program *)
 Definition init (cfg : list (option nat * list act)) (ngates : nat) : st :=
